@@ -203,6 +203,41 @@ func (c *c14) bounds(used map[string]bool) {
 	}
 }
 
+// twoIndexLoop: `for i, j := 0, len(W)-1; i < j; i, j = i+1, j-1` over the local slice W.
+func twoIndexLoop(c *rmCtx, f *ast.ForStmt, w types.Object) (i, j types.Object, ok bool) {
+	init, isAs := f.Init.(*ast.AssignStmt)
+	if !isAs || init.Tok != token.DEFINE || len(init.Lhs) != 2 || len(init.Rhs) != 2 {
+		return nil, nil, false
+	}
+	i, j = identObj(c.info, init.Lhs[0]), identObj(c.info, init.Lhs[1])
+	if v, isC := c.constInt(init.Rhs[0]); !isC || v != 0 || i == nil || j == nil {
+		return nil, nil, false
+	}
+	be, isBin := init.Rhs[1].(*ast.BinaryExpr)
+	if !isBin || be.Op != token.SUB {
+		return nil, nil, false
+	}
+	lc, isCall := be.X.(*ast.CallExpr)
+	if !isCall || len(lc.Args) != 1 || !c.isObj(lc.Args[0], w) || types.ExprString(lc.Fun) != "len" {
+		return nil, nil, false
+	}
+	if v, isC := c.constInt(be.Y); !isC || v != 1 {
+		return nil, nil, false
+	}
+	cond, isBin := f.Cond.(*ast.BinaryExpr)
+	if !isBin || cond.Op != token.LSS || !c.isObj(cond.X, i) || !c.isObj(cond.Y, j) {
+		return nil, nil, false
+	}
+	post, isAs := f.Post.(*ast.AssignStmt)
+	if !isAs || len(post.Lhs) != 2 || len(post.Rhs) != 2 || !c.isObj(post.Lhs[0], i) || !c.isObj(post.Lhs[1], j) {
+		return nil, nil, false
+	}
+	if types.ExprString(post.Rhs[0]) != i.Name()+" + 1" || types.ExprString(post.Rhs[1]) != j.Name()+" - 1" {
+		return nil, nil, false
+	}
+	return i, j, true
+}
+
 func funcDeclName(fd *ast.FuncDecl) string {
 	if r := recvTypeName(fd); r != "" {
 		return r + "." + fd.Name.Name
@@ -301,6 +336,49 @@ func (c *c14) idiom(fd *ast.FuncDecl, e ast.Expr) string {
 			isSlice := func(x ast.Expr) bool { return types.ExprString(x) == sliceStr }
 			if newRevLoop(info, loop, before, isSlice).visitsDescending(ix.Index) {
 				return "G4 the index expression visits len(S)-1 … 0 over the iterations of the loop"
+			}
+		}
+	}
+	// G8: W[i] / W[j] inside `for i, j := 0, len(W)-1; i < j; i, j = i+1, j-1 { … }` whose body assigns
+	// neither index nor W: by induction 0 <= i < j <= len(W)-1
+	if ix, ok := e.(*ast.IndexExpr); ok {
+		if w := identObj(info, ix.X); w != nil {
+			var loop *ast.ForStmt
+			ast.Inspect(fd.Body, func(n ast.Node) bool {
+				if l, ok := n.(*ast.ForStmt); ok && l.Body.Pos() <= e.Pos() && e.End() <= l.Body.End() {
+					loop = l
+				}
+				return true
+			})
+			if loop != nil {
+				if i, j, ok := twoIndexLoop(rc, loop, w); ok {
+					idx := identObj(info, ix.Index)
+					bodyTouches := false
+					ast.Inspect(loop.Body, func(n ast.Node) bool {
+						switch x := n.(type) {
+						case *ast.AssignStmt:
+							for _, l := range x.Lhs {
+								if o := identObj(info, l); o != nil && (o == i || o == j || o == w) {
+									bodyTouches = true
+								}
+							}
+						case *ast.IncDecStmt:
+							if o := identObj(info, x.X); o != nil && (o == i || o == j) {
+								bodyTouches = true
+							}
+						case *ast.UnaryExpr:
+							if x.Op == token.AND {
+								if o := identObj(info, x.X); o != nil && (o == i || o == j || o == w) {
+									bodyTouches = true
+								}
+							}
+						}
+						return true
+					})
+					if !bodyTouches && idx != nil && (idx == i || idx == j) {
+						return "G8 two-index loop: 0 <= i < j <= len(W)-1 holds at every iteration"
+					}
+				}
 			}
 		}
 	}
@@ -924,7 +1002,27 @@ func (c *c14) rangeMakeIdiom(fd *ast.FuncDecl, pos token.Pos) bool {
 	if blk == nil || li < 1 || blk.List[li] != ast.Stmt(loop) {
 		return false
 	}
-	ifs, ok := blk.List[li-1].(*ast.IfStmt)
+	// declarations without initialiser (`var v, zero T`) may stand between the guard and the loop
+	gi := li - 1
+	for gi > 0 {
+		ds, isDecl := blk.List[gi].(*ast.DeclStmt)
+		if !isDecl {
+			break
+		}
+		pure := true
+		if gd, ok := ds.Decl.(*ast.GenDecl); ok {
+			for _, sp := range gd.Specs {
+				if vs, ok := sp.(*ast.ValueSpec); !ok || len(vs.Values) > 0 {
+					pure = false
+				}
+			}
+		}
+		if !pure {
+			break
+		}
+		gi--
+	}
+	ifs, ok := blk.List[gi].(*ast.IfStmt)
 	if !ok || ifs.Else != nil || len(ifs.Body.List) != 1 {
 		return false
 	}
@@ -1066,6 +1164,20 @@ func fieldNilGuarded(fn *ssa.Function, fa *ssa.FieldAddr, at *ssa.BasicBlock) bo
 		if !ok {
 			continue
 		}
+		// the test behind a read-only predicate of the package: `if rt.isSpecFileRequest(path) {…}` where
+		// the predicate can only return true below `rt.F != nil`
+		if call, isCall := iff.Cond.(*ssa.Call); isCall {
+			if callee := call.Call.StaticCallee(); callee != nil && callee.Blocks != nil && callee.Pkg == fn.Pkg {
+				for ai, a := range call.Call.Args {
+					if ai < len(callee.Params) && sameBase(a, fa.X) && trueImpliesFieldNonNil(callee, callee.Params[ai], fa.Field) {
+						if t := b.Succs[0]; t.Dominates(at) && t != b {
+							return true
+						}
+					}
+				}
+			}
+			continue
+		}
 		bo, ok := iff.Cond.(*ssa.BinOp)
 		if !ok || (bo.Op != token.NEQ && bo.Op != token.EQL) {
 			continue
@@ -1094,6 +1206,59 @@ func fieldNilGuarded(fn *ssa.Function, fa *ssa.FieldAddr, at *ssa.BasicBlock) bo
 		}
 	}
 	return false
+}
+
+// trueImpliesFieldNonNil: every way the bool function can return true lies below the non-nil
+// branch of a test of <param>.<field>.
+func trueImpliesFieldNonNil(fn *ssa.Function, param *ssa.Parameter, field int) bool {
+	if fn.Signature.Results().Len() != 1 {
+		return false
+	}
+	// a synthetic field address of the parameter to reuse fieldNilGuarded's matching
+	var probe *ssa.FieldAddr
+	for _, b := range fn.Blocks {
+		for _, ins := range b.Instrs {
+			if fa, ok := ins.(*ssa.FieldAddr); ok && fa.Field == field && fa.X == ssa.Value(param) {
+				probe = fa
+			}
+		}
+	}
+	if probe == nil {
+		return false
+	}
+	var okValue func(v ssa.Value, at *ssa.BasicBlock, depth int) bool
+	okValue = func(v ssa.Value, at *ssa.BasicBlock, depth int) bool {
+		if depth > 8 {
+			return false
+		}
+		if k, ok := v.(*ssa.Const); ok && k.Value != nil && k.Value.String() == "false" {
+			return true
+		}
+		if fieldNilGuarded(fn, probe, at) {
+			return true
+		}
+		if phi, ok := v.(*ssa.Phi); ok {
+			for i, e := range phi.Edges {
+				if !okValue(e, phi.Block().Preds[i], depth+1) {
+					return false
+				}
+			}
+			return true
+		}
+		return false
+	}
+	n := 0
+	for _, b := range fn.Blocks {
+		for _, ins := range b.Instrs {
+			if ret, ok := ins.(*ssa.Return); ok && len(ret.Results) == 1 {
+				n++
+				if !okValue(ret.Results[0], b, 0) {
+					return false
+				}
+			}
+		}
+	}
+	return n > 0
 }
 
 func sameBase(a, b ssa.Value) bool {
